@@ -883,6 +883,39 @@ class SmallArr:
     def pyvc_iterate(self):
         return list(self.items)
 
+    def astype(self, dt, **k):
+        dt = _dtype_name(dt)
+        out = []
+        for x in self.items:
+            t = to_term(x)
+            out.append(wrap(z3.simplify(_cast_term(t, self.dtype_name, dt)), True, dt))
+        return SmallArr(out, dt)
+
+    @property
+    def dtype(self):
+        return DType(self.dtype_name)
+
+
+class SetArr:
+    """np.asarray(<collection of labels known only through membership>): a 1-D array used as a label list"""
+
+    def __init__(self, sset, dtype):
+        self.sset, self.dtype_name = sset, dtype
+
+    @property
+    def dtype(self):
+        return DType(self.dtype_name)
+
+    def astype(self, dt, **k):
+        dt = _dtype_name(dt)
+        src = self.sset
+        cur().fresh_n += 1
+        v = z3.Int(f"castsrc!{cur().fresh_n}")
+        dn = self.dtype_name
+        # the image of the label set under the (possibly wrapping) cast
+        member = lambda t, src=src, v=v, dn=dn, dt=dt: z3.Exists([v], z3.And(src.member(v), _cast_term(v, dn, dt) == t))
+        return SetArr(SymSet(member, name=src.name + f".astype({dt})"), dt)
+
 
 class VSel:
     """arr[mask]: the 1-D selection of the values at the voxels where mask holds."""
@@ -1207,6 +1240,10 @@ class NpModule:
         t = arr.term
         if z3.is_bool(t):
             t = z3.If(t, z3.IntVal(1), z3.IntVal(0))
+        if isinstance(test, SetArr):
+            test = test.sset
+        if isinstance(test, SmallArr):
+            test = list(test.items)
         if isinstance(test, SymSet):
             m = test.member(t)
         elif isinstance(test, (list, tuple, set)):
@@ -1230,11 +1267,22 @@ class NpModule:
             raise Unsupported("np.unique with options")
         return np_unique(self.eng, v)
 
+    def asarray(self, v, dtype=None, **k):
+        if isinstance(v, VArr):
+            return v.astype(dtype) if dtype is not None and _dtype_name(dtype) != v.dtype_name else v  # no copy when nothing changes
+        return self.array(v, dtype, **k)
+
     def array(self, v, dtype=None, **k):
         from .builtins_model import MapView
         if isinstance(v, VArr):
             return v.astype(dtype) if dtype is not None else v.copy()
         dt = _dtype_name(dtype) if dtype is not None else None
+        if isinstance(v, (list, tuple)) and len(v) <= 16 and all(isinstance(x, (int, SymInt)) and not isinstance(x, bool) for x in v):
+            arr = SmallArr([x if isinstance(x, Sym) else wrap(z3.IntVal(x), True, "int64") for x in v], "int64")
+            return arr.astype(dt) if dt else arr
+        if isinstance(v, SymSet) and getattr(v, "of_map", None) is None:
+            arr = SetArr(v, "int64")
+            return arr.astype(dt) if dt else arr
         if isinstance(v, SymSet) and getattr(v, "of_map", None) is not None and dt:
             return ParArr(v.of_map[0], v.of_map[1], dt)
         if isinstance(v, MapView) and dt and v.kind in ("keys", "values"):
